@@ -60,6 +60,9 @@ impl<'a> AnalyzeContext<'a, '_> {
         };
 
         scope.add(subpgm_ent, diagnostics);
+        // The region of the body was created before the subprogram was declared,
+        // it must see it among the overloads when it is called recursively
+        subpgm_region.forget_cached(subpgm_ent.designator());
 
         self.define_labels_for_sequential_part(
             &subpgm_region,
